@@ -11,7 +11,7 @@ def Ev.mapKey (ψ : κ₂ → κ₁) : Ev κ₂ → Ev κ₁
   | .ooo k sid c q d => .ooo (ψ k) sid c q d
   | .data k sid c pl => .data (ψ k) sid c pl
   | .closed k sid => .closed (ψ k) sid
-  | .term k sid r ch b => .term (ψ k) sid r ch b
+  | .term k sid r ch b z => .term (ψ k) sid r ch b z
 
 def InjOn (ψ : κ₂ → κ₁) (K : κ₂ → Prop) : Prop := ∀ a b, K a → K b → ψ a = ψ b → a = b
 
